@@ -9,14 +9,14 @@ from layers.kern import layer_bcker_euler, layer_flux_euler, layer_flux_sw
 from layers.lim import layer_lim
 
 MODULE = 'Flowdyn.Props.C13'
-THEOREMS = core.theorems_in(['C13a.lean', 'C13b.lean'], 'Flowdyn.C13') + \
+THEOREMS = core.theorems_in(['C13a.lean', 'C13b.lean', 'C13c.lean'], 'Flowdyn.C13') + \
     ['Flowdyn.C02.%s_mirror' % f for f in ('conv', 'burgers', 'swCentered', 'swRusanov', 'swHll', 'eCentered', 'eCenteredMassflow', 'eHlle', 'eHllc')] + \
     ['Flowdyn.C12.%s_odd' % l for l in ('minmod', 'superbee', 'vanalbada', 'vanleer')] + \
     ['Flowdyn.C12.minmod_homogeneous', 'Flowdyn.C12.superbee_homogeneous', 'Flowdyn.C12.vanalbada_homogeneous_bound', 'Flowdyn.C12.vanleer_homogeneous_bound']
 AUDIT_IMPORTS = ['Flowdyn.Props.C02', 'Flowdyn.Props.C12']
-PARTIAL = {"integrators": "the lift of the operator equivariance through the integrators and the driver (linear in residuals; time step invariant) is checked by the sweep, not yet a theorem",
+PARTIAL = {"driver / implicit": "every explicit step loop is proved equivariant under any additive map intertwining the operators (C13c); the lift through the driver loop (time step invariance) and the implicit family is checked by the sweep (implicit: known finding K3)",
            "units with regularised limiters": "vanalbada/vanleer are homogeneous only up to the C12 bound: known finding K1",
-           "boundary-kernel mirror laws": "bc(-dir, m w, m params) = m bc(dir, w, params) for each Euler condition is checked by the sweep over all BC pairs; kernel-level theorem pending",
+           "HLLC": "the Euler instantiation of the hypotheses of rhs_mirror (eulerBC_mirror, eulerC2P_mirror, eulerFlux_mirror) excludes HLLC, whose mirror law (C02.eHllc_mirror) holds away from the measure-zero set sM = 0",
            "bit for bit": "a binary64 statement: observed on the implementation by the sweep"}
 LEVEL_NOTE = "kernel-level mirror laws (C02, C12, C16) proved; pipeline-level equivariance theorem: see PARTIAL"
 
